@@ -482,6 +482,7 @@ func (x *Exec) callMath(s *State, name string, args []*Term) ([]*Term, bool) {
 		sn := x.uf("go_sin", SReal, r(0))
 		cs := x.uf("go_cos", SReal, r(0))
 		s.assume(Eq(Arith("+", Arith("*", sn, sn), Arith("*", cs, cs)), RealLitF(1)))
+		s.assume(Implies(Eq(r(0), zero), And(Eq(sn, zero), Eq(cs, RealLitF(1)))))
 		if name == "Sin" {
 			return []*Term{sn}, true
 		}
@@ -490,12 +491,23 @@ func (x *Exec) callMath(s *State, name string, args []*Term) ([]*Term, bool) {
 		sn := x.uf("go_sin", SReal, r(0))
 		cs := x.uf("go_cos", SReal, r(0))
 		s.assume(Eq(Arith("+", Arith("*", sn, sn), Arith("*", cs, cs)), RealLitF(1)))
+		s.assume(Implies(Eq(r(0), zero), And(Eq(sn, zero), Eq(cs, RealLitF(1)))))
 		return []*Term{sn, cs}, true
 	case "Tan":
 		return []*Term{x.uf("go_tan", SReal, r(0))}, true
 	case "Atan2":
+		// v = atan2(y, x): (x, y) = rad*(cos v, sin v) with rad = hypot(x, y)
 		v := x.uf("go_atan2", SReal, r(0), r(1))
 		s.assume(And(Cmp("<=", Neg(PI), v), Cmp("<=", v, PI)))
+		// rad is the same term as math.Sqrt(x*x+y*y) in the code
+		sq := Arith("+", Arith("*", r(1), r(1)), Arith("*", r(0), r(0)))
+		rad := x.uf("go_sqrt", SReal, sq)
+		sn := x.uf("go_sin", SReal, v)
+		cs := x.uf("go_cos", SReal, v)
+		s.assume(And(Cmp(">=", rad, zero),
+			Eq(Arith("*", rad, rad), sq),
+			Eq(Arith("*", rad, cs), r(1)), Eq(Arith("*", rad, sn), r(0)),
+			Eq(Arith("+", Arith("*", sn, sn), Arith("*", cs, cs)), RealLitF(1))))
 		return []*Term{v}, true
 	case "Atan":
 		v := x.uf("go_atan", SReal, r(0))
@@ -683,7 +695,12 @@ func (x *Exec) callFunc(s *State, fn *types.Func, call *ast.CallExpr) []*Term {
 				as = append(as, recv)
 			}
 			as = append(as, args...)
-			as = append(as, x.epochOf(s))
+			if pp := fn.Pkg().Path(); pp == "github.com/tdewolff/font" || strings.HasPrefix(pp, "github.com/tdewolff/font/") || pp == "github.com/go-text/typesetting/language" {
+				// font tables: not affected by stores into the module's string builders / interface arrays
+				as = append(as, x.xepochOf(s))
+			} else {
+				as = append(as, x.epochOf(s))
+			}
 			var out []*Term
 			for i := 0; i < sig.Results().Len(); i++ {
 				rt := sig.Results().At(i).Type()
@@ -1302,7 +1319,10 @@ func (x *Exec) callSpecHelper(s *State, fn *types.Func, call *ast.CallExpr) []*T
 		if os.epoch == nil {
 			os.epoch = x.freshVar("epoch", SInt)
 		}
-		tmp := &State{env: s.env, heap: map[string]*Term{}, assumes: s.assumes, epoch: os.epoch}
+		if os.xepoch == nil {
+			os.xepoch = x.freshVar("xepoch", SInt)
+		}
+		tmp := &State{env: s.env, heap: map[string]*Term{}, assumes: s.assumes, epoch: os.epoch, xepoch: os.xepoch}
 		// parameters denote their entry values inside old()
 		if ent := x.frames[0].entry; ent != nil && len(x.frames) == 1 || (ent != nil && x.inTopClause()) {
 			ne := make(map[types.Object]*Term, len(s.env))
@@ -1425,7 +1445,22 @@ func (x *Exec) callSpecHelper(s *State, fn *types.Func, call *ast.CallExpr) []*T
 		if snap == nil {
 			return []*Term{x.eval(s, call.Args[1])}
 		}
-		tmp := &State{env: snap.env, heap: snap.heap, assumes: s.assumes}
+		// environment of the snapshot plus variables bound since (quantifier variables of the enclosing clause)
+		env := snap.env
+		copied := false
+		for o, t := range s.env {
+			if _, ok := snap.env[o]; !ok {
+				if !copied {
+					env = make(map[types.Object]*Term, len(snap.env)+4)
+					for o2, t2 := range snap.env {
+						env[o2] = t2
+					}
+					copied = true
+				}
+				env[o] = t
+			}
+		}
+		tmp := &State{env: env, heap: snap.heap, assumes: s.assumes, epoch: snap.epoch, xepoch: snap.xepoch}
 		x.dry++
 		v := x.eval(tmp, call.Args[1])
 		x.dry--
